@@ -87,20 +87,26 @@ class Recorder:
 
 def records_for(pw: t.Sequence[t.Tuple[int, int]], variant: int = 0):
     out = []
+    if variant >= 4:
+        # records that name the SAME host several times (absolute / relative / other case / other port): the records stay distinct
+        forms = ["dc.example.com.", "dc.example.com", "DC.example.com.", "dc.example.com.", "dc2.example.com."]
+        for i, (p, w) in enumerate(pw):
+            out.append((p, [0, 1, 2][w], 3890 + i, forms[(i + variant) % 5]))
+        return out
     for i, (p, w) in enumerate(pw):
         target = f"dc{i}.example.com." if (i + variant) % 2 == 0 else f"dc{i}.rel"
         out.append((p, [0, 1, 2][w] if variant < 2 else [0, 1, 65535][w], 3890 + i, target))
     return out
 
 
-def judge(acc, pw, domain, variant) -> None:
+def judge(acc, pw, domain, variant, history=None) -> None:
     import dns.asyncresolver
     import dns.resolver
 
     from dpapi_ng import _dns as D
 
     recs = records_for(pw, variant)
-    case = ["list", [list(x) for x in pw], domain, variant]
+    case = ["list", [list(x) for x in pw], domain, variant] + ([[list(map(list, h)) for h in history]] if history else [])
     results = {}
     for flavour in ("sync", "async"):
         rec = Recorder(recs)
@@ -135,7 +141,7 @@ def judge(acc, pw, domain, variant) -> None:
             return
         if (r.priority, -r.weight) != best:
             acc.violate(f"selection.{flavour}", case, {"chosen": list(got), "best_priority_weight": [best[0], -best[1]], "records": recs}, size=len(pw))
-        match = [x for x in recs if (x[3].rstrip(".") if x[3].endswith(".") else x[3]) == r.target and x[2] == r.port and x[1] == r.weight and x[0] == r.priority]
+        match = [x for x in recs if x[3].rstrip(".") == r.target and x[2] == r.port and x[1] == r.weight and x[0] == r.priority]
         if not match:
             acc.violate(f"record.altered.{flavour}", case, {"chosen": list(got), "records": recs}, size=len(pw))
         results[flavour] = got
@@ -148,6 +154,9 @@ def shards(tier: str, seed: int):
     for first in range(9):
         out.append(["lists", 5, first])
     out.append(["api"])
+    out.append(["samehost"])
+    for part in range(8):
+        out.append(["pairs", part])
     if tier == "thorough":
         for first in range(9):
             out.append(["lists65535", 4, first])
@@ -173,6 +182,33 @@ def run_shard(shard, tier, seed, acc) -> None:
             acc.nt_counted(0)
         acc.outcome("lists-judged", n)
         acc.sample({"records(priority,weight)": [list(x) for x in pw], "domain": DOMAINS[(n - 1) % 4]})
+    elif shard[0] == "samehost":
+        n = 0
+        for k in (2, 3):
+            for pw in itertools.product(PW, repeat=k):
+                for variant in (4, 5, 6):
+                    judge(acc, pw, DOMAINS[n % 4], variant)
+                    n += 1
+        acc.ev(n)
+        acc.nt_counted(n)
+        acc.outcome("samehost-judged", n)
+        acc.sample({"records naming the same host": ["dc.example.com.", "dc.example.com", "DC.example.com."], "lists": "all ordered lists of 2..3 records"})
+    elif shard[0] == "pairs":
+        # histories: two (and three) lookups of the SAME name in a row with different answer sets - a lookup must not remember anything
+        small = [pw for k in (1, 2, 3) for pw in itertools.product([(0, 0), (0, 1), (0, 2), (1, 2)], repeat=k)]
+        n = 0
+        for i, first in enumerate(small):
+            if i % 8 != shard[1]:
+                continue
+            for second in small:
+                for dom in ("domain.test", None):
+                    judge(acc, first, dom, 0)
+                    judge(acc, second, dom, 0, history=[first])
+                    n += 2
+        acc.ev(n)
+        acc.nt_counted(n)
+        acc.outcome("pair-histories-judged", n)
+        acc.sample({"history": [[list(x) for x in small[5]], [list(x) for x in small[40]]], "same SRV name": True})
     else:
         import dns.asyncresolver
         import dns.resolver
@@ -223,7 +259,12 @@ def replay(case, seed, acc) -> None:
     seams.block_network()
     acc.ev()
     if case[0] == "list":
-        judge(acc, [tuple(x) for x in case[1]], case[2], case[3])
+        hist = case[4] if len(case) > 4 else []
+        for h in hist:
+            judge(acc, [tuple(x) for x in h], case[2], case[3])
+        acc.violations.clear()
+        acc.violation_count = 0
+        judge(acc, [tuple(x) for x in case[1]], case[2], case[3], history=[[tuple(x) for x in h] for h in hist] or None)
 
 
 def finish(tier, seed, merged) -> None:
